@@ -814,6 +814,11 @@ def subscript(I, e, b):
             out.tags["corner_cloud"] = True          # value-dependent row selection (e.g. rows with non-zero total)
         if b.tag("positional_subset"):
             out.tags["positional_subset"] = b.tag("positional_subset")
+        rm = idx.tag("row_mask")
+        if rm is not None and rm[0] in ("rows_without_zero", "rows_with_a_zero") and rm[1] == b.term:
+            out.tags["coordinate_zero_subset"] = norm_text_safe(e)
+        if b.tag("coordinate_zero_subset"):
+            out.tags["coordinate_zero_subset"] = b.tag("coordinate_zero_subset")
     if ci is not None and b.shape is not None and not b.shape.ell and b.shape.axes and b.shape.axes[0] == ("N",) \
             and not I.fr.loops:
         I.emit("const_row_pick", e, base=b, index=ci)
@@ -924,6 +929,8 @@ def _index_shape(I, e, shape, elems, b):
                 pos += 1
         return Shape(res, shape.ell)
     if n_real > len(axes):
+        if not shape.ell and b.tag("kind") == "ndarray":
+            I.type_error(e, "SHAPE", f"{n_real} indices for an array of rank {len(axes)} {shape}: IndexError (too many indices)", sub="index-rank")
         return None
     res = []
     pos = 0
@@ -1035,6 +1042,12 @@ def _isinst1(v, t):
         if v.tag("kind") == "ndarray" or (v.tag("ndim") is not None and v.tag("ndim") >= 1):
             return True
         if v.tag("isnum") or v.tag("isstr") or v.items is not None:
+            return False
+        return None
+    if t == "generic":
+        if v.tag("np_scalar"):
+            return True
+        if v.tag("kind") == "ndarray" or v.tag("isstr") or v.items is not None or (v.tag("isnum") and v.tag("np_scalar") is False):
             return False
         return None
     if v.tag("isinstance") == t:
@@ -1196,6 +1209,9 @@ def call_builtin(I, e, name, args, kws):
         out.data = E
         return out
     if name == "getattr":
+        if len(args) >= 2 and args[1].known and args[1].const == "dtype":
+            f = args[0].flat()
+            return Val(shp=f.data | f.shp, ctrl=f.ctrl, term=mk_term("dtype", args[0].term), tags={"dtype_of": True})
         return mk(args)
     if name == "print":
         return const(None)
@@ -1239,6 +1255,14 @@ def call_method(I, e, base, attr, args, kws):
     recv_node = e.func.value
     kind = base.tag("kind")
     heap = I.ctx.trace.heap
+
+    if base.tag("self_dict") and attr in ("setdefault", "update", "pop", "clear", "__setitem__"):
+        key = args[0].const if (args and args[0].known and isinstance(args[0].const, str)) else "__dict__[…]"
+        I.emit("self_store", e, attr=key, val=(args[1] if len(args) > 1 else Val()))
+        out = mk([base] + args, tags={"kind": "dict", "self_dict_member": key, "notnone": True})
+        return out
+    if base.tag("self_dict_member") and attr in ("setdefault", "update", "pop", "clear", "__setitem__", "append", "add"):
+        I.emit("self_store", e, attr=base.tag("self_dict_member"), val=(args[-1] if args else Val()))
     # --- python containers
     if base.tag("module_const") and attr in ("append", "extend", "insert", "update", "pop", "clear", "setdefault", "add",
                                               "remove", "sort", "popitem"):
